@@ -103,6 +103,15 @@ func (e *Engine) registerIntrinsics2() {
 		}
 	}
 
+	in["(time.Duration).Milliseconds"] = func(c *PathCtx, fr *frame, args []Value) Value {
+		return tBV2("bvsdiv", args[0].(*Term), mkBV(64, 1000000))
+	}
+	in["(time.Duration).Seconds"] = func(c *PathCtx, fr *frame, args []Value) Value { return mkFloat(0) }
+	// http.HandlerFunc.ServeHTTP is f(w, r)
+	in["(net/http.HandlerFunc).ServeHTTP"] = func(c *PathCtx, fr *frame, args []Value) Value {
+		c.call(fr, 0, args[0], []Value{args[1], args[2]}, nil)
+		return nil
+	}
 	in["bytes.Equal"] = func(c *PathCtx, fr *frame, args []Value) Value {
 		a, _ := args[0].([]Value)
 		b, _ := args[1].([]Value)
